@@ -26,6 +26,14 @@ from bacpypes import primitivedata as P
 from bacpypes import basetypes as B
 from bacpypes import apdu as A
 
+try:
+    # engine shim (see the module's docstring): exact symbolic `|` / `& mask` for the octet
+    # assembly in Integer.decode / BitString.decode.  Absent under plain-Python replay.
+    from ..ref import C01_sxshim as _sxshim
+    _sxshim.install()
+except ImportError:
+    _sxshim = None
+
 Tag = P.Tag
 APP, CTX = R.APP, R.CTX
 
@@ -62,7 +70,9 @@ def unwire(K, octets, ctx, appnum, what):
                                 tclass=t.tagClass, number=t.tagNumber)
             a = t.context_to_app(appnum)
         obj = K(a)
-        other = a.app_to_object()
+        # same four fields, tag number as the concrete value it was just checked to equal
+        # (a symbolic index into Tag._app_tag_class yields an uncallable symbolic class)
+        other = Tag(Tag.applicationTagClass, appnum, a.tagLVT, a.tagData).app_to_object()
     except Violation:
         raise
     except Exception as e:
@@ -366,10 +376,10 @@ def _oid_value_ok(obj, otype, inst):
              "every instance 0..2^22-1; context number symbolic 0..254, both tagging modes",
       outside="nothing (the type is 32 bits)", stubs=[], assumes=[])
 def oid_word(d):
-    w = d.int(0, 2 ** 32 - 1, 'word')
+    otype = d.int(0, 1023, 'type')
+    inst = d.int(0, 4194303, 'inst')
     ctx = d.int(0, 254, 'ctx')
-    otype = w // 4194304
-    inst = w % 4194304
+    w = otype * 4194304 + inst
     try:
         obj = P.ObjectIdentifier(w)
         app = wire(obj)
@@ -630,7 +640,7 @@ def tag_conv(d, number, n):
                         want=(Tag.contextTagClass, ctx, len(cdata), bytes(cdata)))
     pdu = PDUData()
     c.encode(pdu)
-    check_octets(bytes(pdu.pduData), CTX, ctx, cdata, "tag_conv/context", number=number)
+    check_octets(bytes(pdu.pduData), CTX, ctx, cdata, "tag_conv/context", app_number=number)
     # ... and back
     try:
         back = c.context_to_app(number)
